@@ -111,6 +111,18 @@ type scopeRun struct {
 	retagged bool
 	sepS     string
 	how      map[int]scopeHow
+	// conservation oracle (C01 clause, independent of the model): per counter identity name|tags
+	consLive  map[string]int64 // sum of increments made while the metric's scope (and the root) was live
+	consFuzzy map[string]bool  // an increment was made through a handle of a closed scope: need not be delivered
+	consGot   map[string]int64 // sum of deltas the reporter received
+	mScope    map[int]int      // metric id -> scope id it was obtained from
+	mNT       map[int]string   // metric id -> name|tags token as the reporter will see it
+	rootDead  bool
+	// histogram bounds oracle (C03/C11/C20 clause, independent of the model): every bucket a histogram
+	// delivers or shows in a snapshot is a bucket of the specification it was created with
+	histPairs map[string]map[string]bool // name|tags -> allowed "lo|hi" tokens ("any" when the scope default applies)
+	histUps   map[string]map[string]bool // name|tags -> allowed upper-bound tokens
+	histViol  string
 }
 
 type scopeHow struct {
@@ -146,17 +158,23 @@ func (sr *scopeRun) events() string {
 		switch e.Kind {
 		case "counter":
 			out = append(out, fmt.Sprintf("c|%s|%d", nt, e.I))
+			if sr.consGot != nil {
+				sr.consGot[nt] += e.I
+			}
 		case "gauge":
 			out = append(out, fmt.Sprintf("g|%s|%s", nt, f64hex(e.F)))
 		case "timer":
 			out = append(out, fmt.Sprintf("t|%s|%d", nt, e.I))
 		case "hval":
 			out = append(out, fmt.Sprintf("hv|%s|%s|%s|%d", nt, f64hex(e.LoF), f64hex(e.HiF), e.I))
+			sr.checkPair(nt, "v"+f64hex(e.LoF)+"|"+f64hex(e.HiF))
 		case "hdur":
 			out = append(out, fmt.Sprintf("hd|%s|%d|%d|%d", nt, int64(e.LoD), int64(e.HiD), e.I))
+			sr.checkPair(nt, fmt.Sprintf("d%d|%d", int64(e.LoD), int64(e.HiD)))
 		case "samples":
 			b := sr.histB[e.ID][e.Idx]
 			out = append(out, fmt.Sprintf("%s|%s|%s|%s|%d", sr.histKind[e.ID], nt, b[0], b[1], e.I))
+			sr.checkPair(nt, sr.histKind[e.ID][1:]+b[0]+"|"+b[1])
 		case "bucket-v":
 			sr.histB[e.ID] = append(sr.histB[e.ID], [2]string{f64hex(e.LoF), f64hex(e.HiF)})
 			sr.histKind[e.ID] = "hv"
@@ -183,6 +201,12 @@ func (sr *scopeRun) events() string {
 
 func (sr *scopeRun) say(line, sig string) {
 	sr.lines = append(sr.lines, line)
+	if sr.failed {
+		// model and implementation already disagreed: the model state is no longer comparable. The program
+		// still runs to its end on the implementation so that the model-independent conservation oracle
+		// can decide whether the disagreement is a concrete violation.
+		return
+	}
 	if !sr.c.Cov.Check(sr.c.Drv, line, sr.sigBase+sig) {
 		if !sr.failed {
 			// attach the whole program to the first failure for replay
@@ -255,6 +279,116 @@ func (sr *scopeRun) genTags(maxN int) map[string]string {
 	return m
 }
 
+// noteCounter remembers, for the conservation oracle, which scope a counter came from and the name|tags
+// token under which the reporter will see it (full name = scope prefix, separator, sanitized name)
+func (sr *scopeRun) noteCounter(m tally.Counter, p int, name string) {
+	if sr.scopes[p] == tally.NoopScope {
+		return
+	}
+	id, _ := strconv.Atoi(sr.midOf(m, "counter"))
+	if _, ok := sr.mNT[id]; ok {
+		return
+	}
+	full := sr.san.Name(name)
+	if pfx := tally.VerifScopePrefix(sr.scopes[p]); pfx != "" {
+		full = pfx + sr.sepS + full
+	}
+	sr.mScope[id] = p
+	sr.mNT[id] = hxs(full) + "|" + mapHex(tally.VerifScopeTags(sr.scopes[p]))
+}
+
+func (sr *scopeRun) noteInc(mid int, v int64) {
+	nt, ok := sr.mNT[mid]
+	if !ok {
+		return
+	}
+	if sr.rootDead || sr.closed[sr.mScope[mid]] {
+		if v != 0 {
+			sr.consFuzzy[nt] = true
+		}
+		return
+	}
+	sr.consLive[nt] += v
+}
+
+var collidingSpecs = []tally.Buckets{
+	tally.DurationBuckets{1e6, 4e6}, tally.DurationBuckets{2e6, 3e6}, tally.DurationBuckets{3e6, 2e6},
+	tally.ValueBuckets{1.25, 1.75}, tally.ValueBuckets{1.375, 1.625},
+	// durations whose int64 values are the bit patterns of the value sets above, and the other way round
+	tally.DurationBuckets{time.Duration(math.Float64bits(1.25)), time.Duration(math.Float64bits(1.75))},
+	tally.ValueBuckets{math.Float64frombits(1e6), math.Float64frombits(4e6)},
+}
+
+// noteHist registers, for the bounds oracle, the buckets the specification `b` entitles the histogram
+// `name` of scope p to (sorted copy, minimum / maximum sentinels); computed here, not by the library
+func (sr *scopeRun) noteHist(p int, name string, b tally.Buckets) {
+	if sr.scopes[p] == tally.NoopScope {
+		return
+	}
+	full := sr.san.Name(name)
+	if pfx := tally.VerifScopePrefix(sr.scopes[p]); pfx != "" {
+		full = pfx + sr.sepS + full
+	}
+	nt := hxs(full) + "|" + mapHex(tally.VerifScopeTags(sr.scopes[p]))
+	if sr.histPairs[nt] == nil {
+		sr.histPairs[nt] = map[string]bool{}
+		sr.histUps[nt] = map[string]bool{}
+	}
+	switch x := b.(type) {
+	case tally.DurationBuckets:
+		ds := make([]int64, len(x))
+		for i, d := range x {
+			ds[i] = int64(d)
+		}
+		sort.Slice(ds, func(i, j int) bool { return ds[i] < ds[j] })
+		lo := int64(math.MinInt64)
+		for _, d := range append(ds, math.MaxInt64) {
+			sr.histPairs[nt][fmt.Sprintf("d%d|%d", lo, d)] = true
+			sr.histUps[nt][fmt.Sprintf("d%d", d)] = true
+			lo = d
+		}
+	case tally.ValueBuckets:
+		vs := append([]float64(nil), x...)
+		sort.Float64s(vs)
+		lo := -math.MaxFloat64
+		for _, v := range append(vs, math.MaxFloat64) {
+			sr.histPairs[nt]["v"+f64hex(lo)+"|"+f64hex(v)] = true
+			sr.histUps[nt]["v"+f64hex(v)] = true
+			lo = v
+		}
+	default:
+		sr.histPairs[nt]["any"] = true // nil: the scope's default buckets
+	}
+}
+
+func (sr *scopeRun) checkPair(nt, pair string) {
+	allowed := sr.histPairs[nt]
+	if allowed == nil || allowed["any"] || allowed[pair] || sr.histViol != "" {
+		return
+	}
+	sr.histViol = fmt.Sprintf("histogram %s delivered samples for bucket %s, which is not a bucket of any specification it was created with", nt, pair)
+}
+
+func (sr *scopeRun) checkSnap(snap tally.Snapshot) {
+	for _, h := range snap.Histograms() {
+		nt := hxs(h.Name()) + "|" + mapHex(h.Tags())
+		allowed := sr.histUps[nt]
+		if allowed == nil || sr.histPairs[nt]["any"] || sr.histViol != "" {
+			continue
+		}
+		for b := range h.Values() {
+			if !allowed["v"+f64hex(b)] {
+				sr.histViol = fmt.Sprintf("snapshot of histogram %s shows value bound %v, which is not a bound of any specification it was created with", nt, b)
+			}
+		}
+		for b := range h.Durations() {
+			if !allowed[fmt.Sprintf("d%d", int64(b))] {
+				sr.histViol = fmt.Sprintf("snapshot of histogram %s shows duration bound %v, which is not a bound of any specification it was created with", nt, b)
+			}
+		}
+	}
+}
+
 func specTok(b tally.Buckets) string {
 	switch x := b.(type) {
 	case nil:
@@ -282,7 +416,13 @@ func suiteScope(c *Ctx, mode string) {
 	c.Cov.Rule = rules[mode]
 	n := c.N(1500, 15000)
 	for i := 0; i < n; i++ {
-		runScopeProgram(c, c.Rng.Fork(), mode)
+		r := c.Rng.Fork()
+		if pan, val := catch(func() { runScopeProgram(c, r, mode) }); pan {
+			// the library panicked inside an API call of the program: a crash of the implementation, not of the harness
+			c.Cov.Fail(Failure{Kind: "crash", Clause: "no-panic", Signature: "scope-" + mode + "-panic", Line: fmt.Sprintf("program %d of seed %d", i, c.Seed), Reply: fmt.Sprint(val)})
+			// (the scripted clock and alias mode are restored by the program's own defers; the next program
+			// starts with a fresh "root" line, which resets the driver's model state)
+		}
 	}
 	if mode == "c05" {
 		scopeKeyCases(c, c.N(1500, 20000))
@@ -341,7 +481,9 @@ func scopeKeyCases(c *Ctx, n int) {
 
 func runScopeProgram(c *Ctx, r *Rng, mode string) {
 	sr := &scopeRun{c: c, r: r, scopeID: map[tally.Scope]int{}, metricID: map[interface{}]int{}, closed: map[int]bool{},
-		histB: map[int][][2]string{}, histKind: map[int]string{}, how: map[int]scopeHow{}, sigBase: "scope-" + mode + "-", depth: map[int]int{}}
+		histB: map[int][][2]string{}, histKind: map[int]string{}, how: map[int]scopeHow{}, sigBase: "scope-" + mode + "-", depth: map[int]int{},
+		consLive: map[string]int64{}, consFuzzy: map[string]bool{}, consGot: map[string]int64{}, mScope: map[int]int{}, mNT: map[int]string{},
+		histPairs: map[string]map[string]bool{}, histUps: map[string]map[string]bool{}}
 	sg := genSan(r)
 	aliasMode = false
 	if mode == "c07" && r.Chance(40) {
@@ -450,7 +592,7 @@ func runScopeProgram(c *Ctx, r *Rng, mode string) {
 	defer restore()
 	rootClosed := false
 	nontrivial := false
-	for k := 0; k < nops && !sr.failed; k++ {
+	for k := 0; k < nops; k++ {
 		live := []int{}
 		for id := range sr.scopes {
 			live = append(live, id)
@@ -535,6 +677,7 @@ func runScopeProgram(c *Ctx, r *Rng, mode string) {
 			switch r.Intn(4) {
 			case 0:
 				m := sr.scopes[p].Counter(name)
+				sr.noteCounter(m, p, name)
 				sr.say(fmt.Sprintf("counter %d %s => %s %s", p, hxs(name), sr.midOf(m, "counter"), sr.events()), "metric")
 			case 1:
 				m := sr.scopes[p].Gauge(name)
@@ -554,6 +697,13 @@ func runScopeProgram(c *Ctx, r *Rng, mode string) {
 				default:
 					b = tally.ValueBuckets{2, float64(r.Range(3, 9))}
 				}
+				if r.Chance(35) {
+					// specifications whose cache identity collides (same sum of bit patterns, same length; also
+					// across kinds): the histogram must still use the bounds it was created with
+					b = collidingSpecs[r.Intn(len(collidingSpecs))]
+					c.Cov.Hit("hist.colliding-spec")
+				}
+				sr.noteHist(p, name, b)
 				m := sr.scopes[p].Histogram(name, b)
 				sr.say(fmt.Sprintf("hist %d %s %s => %s %s", p, hxs(name), specTok(b), sr.midOf(m, "hist"), sr.events()), "metric")
 			}
@@ -566,6 +716,7 @@ func runScopeProgram(c *Ctx, r *Rng, mode string) {
 					v = c01IncPool[r.Intn(len(c01IncPool))]
 				}
 				m.Inc(v)
+				sr.noteInc(mid, v)
 				sr.say(fmt.Sprintf("inc %d %d => %s", mid, v, sr.events()), "record")
 			case tally.Gauge:
 				v := float64(r.Range(-5, 50))
@@ -615,7 +766,7 @@ func runScopeProgram(c *Ctx, r *Rng, mode string) {
 			if mode == "c10" {
 				nontrivial = true
 			}
-		case w < 91 && mode == "c07" && len(sr.how) > 0: // close a subscope and immediately obtain its identity again (maybe through an aliasing input)
+		case (w < 91 || (w < 97 && r.Chance(50))) && mode == "c07" && len(sr.how) > 0: // close a subscope and immediately obtain its identity again (maybe through an aliasing input)
 			ids := make([]int, 0, len(sr.how))
 			for id := range sr.how {
 				ids = append(ids, id)
@@ -623,6 +774,18 @@ func runScopeProgram(c *Ctx, r *Rng, mode string) {
 			sort.Ints(ids)
 			id := ids[r.Intn(len(ids))]
 			h := sr.how[id]
+			if r.Chance(60) && !sr.closed[id] {
+				// make sure the scope holds something unreported when it is closed and re-acquired: the
+				// report-on-reacquire (C01/C07) is then visible in the events of the reacquire line
+				m := sr.scopes[id].Counter("rq")
+				sr.noteCounter(m, id, "rq")
+				sr.say(fmt.Sprintf("counter %d %s => %s %s", id, hxs("rq"), sr.midOf(m, "counter"), sr.events()), "metric")
+				v := int64(r.Range(1, 9))
+				m.Inc(v)
+				sr.noteInc(sr.metricID[m], v)
+				sr.say(fmt.Sprintf("inc %d %d => %s", sr.metricID[m], v, sr.events()), "record")
+				c.Cov.Hit("c07.reacquire-with-unreported-counter")
+			}
 			if r.Chance(70) {
 				if cl, ok := sr.scopes[id].(io.Closer); ok {
 					cl.Close()
@@ -684,10 +847,12 @@ func runScopeProgram(c *Ctx, r *Rng, mode string) {
 		case w < 95 && !rootClosed && (mode == "c07" || r.Chance(25)): // close root
 			sr.closer.Close()
 			rootClosed = true
+			sr.rootDead = true
 			sr.say("close 0 => "+sr.events(), "close-root")
 		default: // snapshot
 			if tsc, ok := sr.root.(tally.TestScope); ok {
 				snap := tsc.Snapshot()
+				sr.checkSnap(snap)
 				sr.say("snap => "+snapTok(snap), "snapshot")
 				// mutate the snapshot: must not affect the scope
 				for _, cs := range snap.Counters() {
@@ -716,15 +881,43 @@ func runScopeProgram(c *Ctx, r *Rng, mode string) {
 		}
 	}
 	// final: one more pass and a snapshot, then close
-	if !sr.failed {
+	{
 		tally.VerifReportOnce(sr.root)
 		sr.say("report => "+sr.events(), "report")
 		if tsc, ok := sr.root.(tally.TestScope); ok {
-			sr.say("snap => "+snapTok(tsc.Snapshot()), "snapshot")
+			snap := tsc.Snapshot()
+			sr.checkSnap(snap)
+			sr.say("snap => "+snapTok(snap), "snapshot")
 		}
 	}
 	if !rootClosed {
 		sr.closer.Close()
+	}
+	if sr.log() != nil {
+		sr.events() // whatever the root's Close delivered
+		nts := make([]string, 0, len(sr.consLive))
+		for nt := range sr.consLive {
+			nts = append(nts, nt)
+		}
+		sort.Strings(nts)
+		for _, nt := range nts {
+			if sr.consFuzzy[nt] {
+				c.Cov.Hit("conservation.skipped-recorded-on-closed-scope")
+				continue
+			}
+			c.Cov.Hit("conservation.checked")
+			if sr.consGot[nt] != sr.consLive[nt] {
+				c.Cov.Fail(Failure{Kind: "violated", Clause: "conservation", Signature: sr.sigBase + "conservation",
+					Line:   strings.Join(sr.lines, " ; "),
+					Reply:  fmt.Sprintf("counter %s: increments applied while its scope was live add up to %d, deliveries add up to %d (after a final pass and the root's Close)", nt, sr.consLive[nt], sr.consGot[nt]),
+					Detail: strings.Join(sr.lines, "\n")})
+				break
+			}
+		}
+	}
+	if sr.histViol != "" {
+		c.Cov.Fail(Failure{Kind: "violated", Clause: "bounds-of-own-specification", Signature: sr.sigBase + "histogram-bounds",
+			Line: strings.Join(sr.lines, " ; "), Reply: sr.histViol, Detail: strings.Join(sr.lines, "\n")})
 	}
 	key := strings.Join(sr.lines, " ; ")
 	c.Cov.Eval(key, nontrivial)
